@@ -148,7 +148,8 @@ def main(argv=None):
         for v in b['violations']:
             m = next((e for e in known if e.get('match', {}).get('kind') == v['kind']), None)
             if m is not None:
-                out_lines.append('KNOWN-FINDING: property=%s %s (%s)' % (pid, m['what'][:160], m['id']))
+                kl = 'KNOWN-FINDING: property=%s %s (%s)' % (pid, m['what'][:160], m['id'])
+                if kl not in out_lines: out_lines.append(kl)
             else:
                 bviol.append(v)
     for k, r in results.items():
